@@ -28,6 +28,15 @@ func handleFuncOptsF32(expShape Shape, o DataOrder, opts ...FuncOpt) (reuse Dens
 			err = errors.Wrapf(err, "Cannot use reuse: shape mismatch")
 			return
 		}
+		// like the standard engine: a reuse tensor with the right number of elements takes the result's shape
+		if !reuse.Shape().Eq(expShape) {
+			cloned := expShape.Clone()
+			if err = reuse.Reshape(cloned...); err != nil {
+				returnOpOpt(fo)
+				return
+			}
+			ReturnInts([]int(cloned))
+		}
 
 		if !incr && reuse != nil {
 			reuse.setDataOrder(o)
